@@ -203,3 +203,169 @@ Proof.
       cbn [app create_spec map euv zuv eu ev fst snd]. rewrite HM. reflexivity.
     + destruct Hok as (_ & _ & _ & Hc & _). rewrite Hc. exists E. cbn [app create_spec]. split; [reflexivity | exact HM].
 Qed.
+
+Lemma cont_ok_some : forall c, cont_ok c = true -> exists k, cont_kind (t_in_edge (first_data c)) = Some k.
+Proof. intros c H. unfold cont_ok in H. destruct (cont_kind (t_in_edge (first_data c))) as [k|]; [now exists k | discriminate]. Qed.
+
+Lemma pair_edges_lay : forall T fuel x x' i q,
+  lay T x i q -> lay T x' (S i) (q + desc x)%nat -> cont_ok x' = true ->
+  (size x <= fuel)%nat -> (size x' <= fuel)%nat ->
+  exists E, pair_edges fuel T (Z.of_nat i) = Some E /\
+            map euv E = map zuv ((last_idx x i q, first_idx x' (S i) (q + desc x)%nat)
+                                 :: sec_creates x q (first_idx x' (S i) (q + desc x)%nat)).
+Proof.
+  intros T fuel x x' i q Hx Hx' Hc Hsx Hsx'.
+  unfold pair_edges.
+  rewrite (last_leaf_lay T x i q fuel Hx Hsx).
+  replace (Z.of_nat i + 1) with (Z.of_nat (S i)) by lia.
+  rewrite (first_leaf_lay T x' (S i) (q + desc x)%nat fuel Hx' Hsx').
+  set (tgt := first_idx x' (S i) (q + desc x)%nat).
+  destruct (first_node_lay T x' _ _ Hx') as (nt & Hnt & Hin). fold tgt in Hnt.
+  rewrite !nodeat_nat, Hnt.
+  pose proof (lay_node _ _ _ _ Hx) as (nx & Hnx & Hok). rewrite Hnx.
+  destruct (cont_ok_some x' Hc) as (k & Hk). rewrite Hin, Hk.
+  destruct Hok as (Hiq & (Hkind & _) & Hshape). rewrite Hkind.
+  destruct x as [d | d c | d cs]; cbn [tdata] in *.
+  - destruct Hshape as [Hs _]. unfold is_sub in Hs. rewrite Hkind in Hs. apply Z.leb_gt in Hs.
+    destruct (t_kind d =? K_section) eqn:E; [apply Z.eqb_eq in E; lia|].
+    eexists. split; [reflexivity|]. reflexivity.
+  - destruct Hshape as (_ & Hs & _). unfold is_sub in Hs. rewrite Hkind in Hs. apply Z.leb_gt in Hs.
+    destruct (t_kind d =? K_section) eqn:E; [apply Z.eqb_eq in E; lia|].
+    eexists. split; [reflexivity|]. reflexivity.
+  - cbn [sec_creates]. destruct (t_kind d =? K_section) eqn:E.
+    + destruct Hshape as (_ & _ & Ho). apply lay_Sub_inv in Hx. destruct Hx as [_ HLL].
+      destruct cs as [|c r].
+      * replace (Z.to_nat (getf F_ob nx - getf F_oa nx)) with O by lia. rewrite zrange_0. cbn [opt_concat_map].
+        eexists. split; [reflexivity|]. reflexivity.
+      * destruct Ho as [Ha Hb].
+        replace (Z.of_nat i + getf F_oa nx) with (Z.of_nat q) by lia.
+        replace (Z.to_nat (getf F_ob nx - getf F_oa nx)) with (length (c :: r)) by lia.
+        destruct (create_edges_lay T fuel tgt (c :: r) q (q + length (c :: r))%nat HLL) as (E' & HE' & HM').
+        { intros c0 H0. pose proof (size_child_le d (c :: r) c0 H0). lia. }
+        rewrite HE'. eexists. split; [reflexivity|].
+        cbn [map]. rewrite HM'. reflexivity.
+    + eexists. split; [reflexivity|]. reflexivity.
+Qed.
+
+Lemma pairs_spec_cons2 : forall x x' r i q,
+  pairs_spec (x :: x' :: r) i q =
+  (last_idx x i q, first_idx x' (S i) (q + desc x)%nat)
+  :: sec_creates x q (first_idx x' (S i) (q + desc x)%nat) ++ pairs_spec (x' :: r) (S i) (q + desc x)%nat.
+Proof. reflexivity. Qed.
+
+Lemma pairs_lay : forall T fuel l i q,
+  lay_list (lay T) l i q -> forallb cont_ok (tl l) = true -> (forall c, In c l -> (size c <= fuel)%nat) ->
+  exists E, opt_concat_map (pair_edges fuel T) (zrange (Z.of_nat i) (length l - 1)) = Some E /\
+            map euv E = map zuv (pairs_spec l i q).
+Proof.
+  intros T fuel l. induction l as [|x r IH]; intros i q HL Hc Hsz.
+  - exists []. split; reflexivity.
+  - destruct r as [|x' r'].
+    + exists []. split; reflexivity.
+    + destruct HL as [Hx Hr]. cbn [tl forallb] in Hc. apply andb_prop in Hc. destruct Hc as [Hcx' Hcr].
+      replace (length (x :: x' :: r') - 1)%nat with (S (length (x' :: r') - 1)) by (cbn [length]; lia).
+      rewrite zrange_S. cbn [opt_concat_map].
+      destruct (pair_edges_lay T fuel x x' i q Hx (proj1 Hr) Hcx') as (E1 & HE1 & HM1);
+        [apply Hsz; now left | apply Hsz; right; now left |].
+      destruct (IH (S i) (q + desc x)%nat Hr Hcr) as (E2 & HE2 & HM2); [intros c H0; apply Hsz; now right|].
+      replace (Z.of_nat i + 1) with (Z.of_nat (S i)) by lia.
+      rewrite HE1, HE2. eexists. split; [reflexivity|].
+      rewrite map_app, HM1, HM2, pairs_spec_cons2, map_cons, map_cons, map_app. reflexivity.
+Qed.
+
+Theorem node_edges_lay : forall T fuel t i p, lay T t i p -> wf_tree t = true -> (size t <= fuel)%nat ->
+  exists E, node_edges fuel T (Z.of_nat i) = Some E /\ map euv E = map zuv (node_spec t p).
+Proof.
+  intros T fuel t i p HL Hw Hsz. unfold node_edges. rewrite nodeat_nat.
+  pose proof (lay_node _ _ _ _ HL) as (x & Hx & Hok). rewrite Hx.
+  destruct t as [d | d c | d cs].
+  - destruct Hok as (_ & _ & Hs & _). rewrite Hs. exists []. split; reflexivity.
+  - destruct Hok as (_ & _ & _ & Hs & _). rewrite Hs. exists []. split; reflexivity.
+  - destruct Hok as (Hip & _ & Hs & _ & Ho). rewrite Hs.
+    apply wf_tree_Sub in Hw. destruct Hw as (_ & _ & _ & Hc & _).
+    apply lay_Sub_inv in HL. destruct HL as [_ HLL].
+    destruct cs as [|c r].
+    + replace (Z.to_nat (getf F_ob x - getf F_oa x - 1)) with O by lia. exists []. split; reflexivity.
+    + destruct Ho as [Ha Hb].
+      replace (Z.of_nat i + getf F_oa x) with (Z.of_nat p) by lia.
+      replace (Z.to_nat (getf F_ob x - getf F_oa x - 1)) with (length (c :: r) - 1)%nat by lia.
+      apply pairs_lay; [exact HLL | exact Hc|].
+      intros c0 H0. pose proof (size_child_le d (c :: r) c0 H0). lia.
+Qed.
+
+(** * every entry of the enumeration is laid out *)
+Lemma lay_list_heads : forall R l i q, lay_list R l i q ->
+  forall e, In e (heads l i q) -> R (snd e) (eidx e) (eblk e).
+Proof.
+  intros R. induction l as [|c r IH]; intros i q H e He; [contradiction|].
+  destruct H as [Hc Hr]. cbn [heads] in He. destruct He as [<-|He]; [exact Hc | eapply IH; eassumption].
+Qed.
+
+Lemma lay_descs : forall T t i p, lay T t i p -> forall e, In e (descs t p) -> lay T (snd e) (eidx e) (eblk e).
+Proof.
+  intros T t. induction t as [d | d c IH | d cs IH] using tree_ind2; intros i p HL e He.
+  - contradiction.
+  - cbn [descs] in He. destruct He as [<-|He]; [exact (proj2 HL)|]. eapply IH; [exact (proj2 HL) | exact He].
+  - apply lay_Sub_inv in HL. destruct HL as [_ HLL]. rewrite descs_Sub in He. apply in_app_or in He.
+    destruct He as [He|He]; [eapply lay_list_heads in He; [exact He | exact HLL]|].
+    revert He HLL. generalize p at 2 3. generalize (p + length cs)%nat.
+    induction IH as [|c r Hc _ IHr]; intros q i0 He HLL; [contradiction|].
+    destruct HLL as [HLc HLr]. cbn [tails] in He. apply in_app_or in He. destruct He as [He|He].
+    + eapply Hc; eassumption.
+    + eapply IHr; eassumption.
+Qed.
+
+Lemma wf_descs : forall t p, wf_tree t = true -> forall e, In e (descs t p) -> wf_tree (snd e) = true.
+Proof.
+  intros t p H e He. pose proof (descs_ok t p H) as HF. rewrite Forall_forall in HF. exact (proj2 (HF e He)).
+Qed.
+
+Lemma size_descs : forall t p e, In e (descs t p) -> (size (snd e) < size t)%nat.
+Proof.
+  induction t as [d | d c IH | d cs IH] using tree_ind2; intros p e He.
+  - contradiction.
+  - cbn [descs] in He. cbn [size]. destruct He as [<-|He]; [cbn; lia | specialize (IH _ _ He); lia].
+  - rewrite descs_Sub in He. apply in_app_or in He. destruct He as [He|He].
+    + assert (Hin : In (snd e) cs).
+      { revert He. generalize p at 1. generalize (p + length cs)%nat. clear. induction cs as [|c r IHr]; intros q i He; [contradiction|].
+        cbn [heads] in He. destruct He as [<-|He]; [now left | right; eapply IHr; exact He]. }
+      now apply size_child_le.
+    + assert (Hex : exists c, In c cs /\ (size (snd e) < size c)%nat).
+      { revert He. generalize (p + length cs)%nat. clear -IH. induction IH as [|c r Hc _ IHr]; intros q He; [contradiction|].
+        cbn [tails] in He. apply in_app_or in He. destruct He as [He|He].
+        - exists c. split; [now left | eapply Hc; exact He].
+        - destruct (IHr _ He) as (c0 & H0 & H1). exists c0. split; [now right | exact H1]. }
+      destruct Hex as (c & Hc & Hlt). pose proof (size_child_le d cs c Hc). lia.
+Qed.
+
+Definition spec_of_entries (ents : list entry) : list uv :=
+  concat (map (fun e => node_spec (snd e) (eblk e)) ents).
+
+Lemma opt_concat_map_map : forall (A B C : Type) (h : A -> B) (f : B -> option (list C)) l,
+  opt_concat_map f (map h l) = opt_concat_map (fun a => f (h a)) l.
+Proof. intros A B C h f l. induction l as [|a r IH]; [reflexivity|]. cbn [map opt_concat_map]. now rewrite IH. Qed.
+
+Lemma opt_concat_map_spec : forall (A : Type) (f : A -> option (list edge)) (g : A -> list uv) l,
+  (forall a, In a l -> exists E, f a = Some E /\ map euv E = map zuv (g a)) ->
+  exists E, opt_concat_map f l = Some E /\ map euv E = map zuv (concat (map g l)).
+Proof.
+  intros A f g l. induction l as [|a r IH]; intros H.
+  - exists []. split; reflexivity.
+  - destruct (H a (or_introl eq_refl)) as (E1 & H1 & M1).
+    destruct IH as (E2 & H2 & M2); [intros b Hb; apply H; now right|].
+    cbn [opt_concat_map]. rewrite H1, H2. eexists. split; [reflexivity|].
+    cbn [map concat]. rewrite !map_app, M1, M2. reflexivity.
+Qed.
+
+Theorem enum_edges_spec : forall T t, lay T t 0 1 -> wf_tree t = true -> length T = size t ->
+  exists E, enum_edges T = Some E /\ map euv E = map zuv (spec_of_entries (entries t)).
+Proof.
+  intros T t HL Hw Hlen. unfold enum_edges. rewrite zrange_nat, Hlen, <- entries_idx, map_map.
+  rewrite opt_concat_map_map. apply opt_concat_map_spec.
+  intros e He. unfold entries in He. destruct He as [<-|He].
+  - cbn [eidx fst snd eblk]. apply node_edges_lay; [exact HL | exact Hw | lia].
+  - apply node_edges_lay.
+    + eapply lay_descs; eassumption.
+    + eapply wf_descs; eassumption.
+    + pose proof (size_descs t 1 e He). lia.
+Qed.
